@@ -162,7 +162,8 @@ class ArrayConstraintBuilder(ConstraintOverrideVisitor):
     def visit_field_scalar_array(self, f:FieldArrayModel):
         if self.phase == 0:
             # TODO: this logic is for rand-sized array fields
-            if f.is_rand_sz:
+            # (that are random in this call)
+            if f.is_rand_sz and f.is_used_rand:
                 size_bound = self.bound_m[f.size]
                 range_l = size_bound.domain.range_l
                 # An empty domain means the size constraints conflict:
